@@ -609,6 +609,29 @@ def prefactor_rule(chk, src, rule):
     ok = got is not None and sp.simplify(got ** 2 - sp.re(sp.expand(want ** 2))) == 0
     chk.ob(rule, "MatrixProduct.distance: |a - b|^2 = <a|a> + <b|b> - <a|b> - conj(<a|b>)", ok, fi.where, str(got), "sqrt(Re(N_a + N_b - X_ab - conj(X_ab)))", line=fi.node.lineno,
            detail="the distance must be built from the three inner products with the conjugated operand as the bra")
+    # ---- the same function on numbers: only a *negative* squared distance (round-off of the cancellation) is clamped to zero; a small positive one is a small distance
+    import math as _math
+
+    class _F(float):
+        def item(self):
+            return float(self)
+    for case, (na, nb, xab), want_d in (("close operands, |a - b| = 1e-5 |a|", (1.0, 1.0, 1.0 - 5e-11), 1e-5), ("close operands, |a - b| = 1e-6 |a|, complex overlap", (4.0, 4.0, complex(4.0 - 2e-12, 3e-7)), 2e-6),
+                                          ("equal operands with round-off", (1.0, 1.0, 1.0 + 1e-17), 0.0), ("well separated operands", (1.0, 2.0, 0.25), _math.sqrt(2.5))):
+        def bra_of(x, other_norms):
+            return Sym(f"bra({x})", dot=lambda y, x=x: complex(other_norms[(x, y._name)]))
+        table = {("a", "a"): na, ("b", "b"): nb, ("a", "b"): xab, ("b", "a"): complex(xab).conjugate()}
+        A_, B_ = Sym("a"), Sym("b")
+        A_.__dict__["conj"] = lambda: bra_of("a", table)
+        B_.__dict__["conj"] = lambda: bra_of("b", table)
+        itn = SymInterp(src, None, {"np": Sym("np", sqrt=lambda v: _F(_math.sqrt(v))), "float": float})
+        try:
+            got_d = itn.call_function(fi, [A_, B_])
+            err = None
+        except SymRaise as e:
+            got_d, err = None, str(e)
+        ok = err is None and isinstance(got_d, float) and abs(got_d - want_d) <= 1e-3 * want_d + 1e-12
+        chk.ob(rule, f"MatrixProduct.distance[{case}]", ok, fi.where, err or repr(got_d), repr(want_d), line=fi.node.lineno,
+               detail="the distance of two close but different operands is small, not zero: only a negative squared distance (cancellation round-off) may be replaced by zero")
     # ---- subtraction
     fi = src.func(MP, "MatrixProduct.__sub__")
     a, b = Vec("a", Num(1), {"a": 1}), Vec("b", Num(1), {"b": 1})
